@@ -444,6 +444,8 @@ func runC11x(c C11Case, cs *kit.CaseStats, info *c11Info) error {
 		fn func()
 	}
 	var mu sync.Mutex
+	var honestDialMu sync.Mutex
+	var honestDialAt time.Time // when the first honest peer was dialled
 	bconn := make([]*p2px.GWConn, len(byz))
 	var plan []pending
 	for i, bs := range c.Byz {
@@ -464,7 +466,14 @@ func runC11x(c C11Case, cs *kit.CaseStats, info *c11Info) error {
 	}
 	for _, h := range honest {
 		h := h
-		plan = append(plan, pending{time.Duration(c.HonestDelayMS) * time.Millisecond, func() { victim.Connect(h, 10*time.Second) }})
+		plan = append(plan, pending{time.Duration(c.HonestDelayMS) * time.Millisecond, func() {
+			honestDialMu.Lock()
+			if honestDialAt.IsZero() {
+				honestDialAt = time.Now()
+			}
+			honestDialMu.Unlock()
+			victim.Connect(h, 10*time.Second)
+		}})
 	}
 	sort.SliceStable(plan, func(i, j int) bool { return plan[i].at < plan[j].at })
 	start := time.Now()
@@ -894,11 +903,16 @@ func runC11x(c C11Case, cs *kit.CaseStats, info *c11Info) error {
 				expect = "sent " + key + " attaching to the victim's tip"
 			}
 		}
-		// another body under an unchanged v2 id, delivered while this liar was the
-		// only peer the victim could ask (it connected first, the honest peers more
-		// than a sync round later): the batch reached full validation, so the
-		// peer must have been reported - whether or not it is still connected
-		if expect == "" && rpc == "blocks" && b.Applied("blocks:same-id-invalid-body") > 0 && len(c.Byz) == 1 && c.Byz[0].DelayMS == 0 && c.HonestDelayMS >= 1200 && c.Slow == nil && quiescent {
+		// another body under an unchanged v2 id, handed over (and, for the hang-up
+		// variants, read by the victim) before the first honest peer was even
+		// dialled, i.e. while this liar was the only peer the victim could ask: no
+		// other worker can have pre-empted or cancelled that request, the batch
+		// reached full validation, so the peer must have been reported - whether
+		// or not it is still connected
+		honestDialMu.Lock()
+		soloUntil := honestDialAt
+		honestDialMu.Unlock()
+		if at := b.SameIDAt(); expect == "" && rpc == "blocks" && !at.IsZero() && !soloUntil.IsZero() && at.Add(200*time.Millisecond).Before(soloUntil) && len(c.Byz) == 1 && c.Slow == nil && quiescent {
 			expect = "delivered a block with another body under its id (" + key + ") while it was the victim's only peer"
 		}
 		if expect != "" && !banned {
